@@ -226,8 +226,9 @@ Definition beneath (work p : bytes) : bool :=
    BEFORE it unpacks the archive: every entry name is expanded with them (ts.expand) and made
    absolute (ts.MkAbs; the current directory is the work directory); a name that leaves the work
    directory is refused (Fatalf: setup fails, nothing is written for this entry or the ones
-   behind it).  The file is registered in scriptFiles under the EXPANDED location, with the
-   name as it is written in the archive as the value.  Params.Setup of the harness leaves
+   behind it).  The file is registered in scriptFiles under the EXPANDED location, cleaned
+   (filepath.Clean: the file itself is written through the path as it is), with the name as it
+   is written in the archive as the value.  Params.Setup of the harness leaves
    Env.Vars alone, so the model has one environment: the initial one is the one the script
    starts with.  The result is the state reached and whether every entry could be written. *)
 Fixpoint unpack (unique : bool) (work : bytes) (fs : list (bytes * bytes)) (st : state) : state * bool :=
@@ -236,7 +237,7 @@ Fixpoint unpack (unique : bool) (work : bytes) (fs : list (bytes * bytes)) (st :
   | (name, data) :: r =>
       let p := mkabs st (expand (s_env st) name) in
       if negb (beneath work p) then (st, false) else
-      let st0 := set_files st (assoc_set (s_files st) p name) in
+      let st0 := set_files st (assoc_set (s_files st) (clean p) name) in
       match mkdir_all (s_fs st0) (dir p) 511 with
       | (t1, false) => (set_fs st0 t1, false)
       | (t1, true) =>
